@@ -23,6 +23,14 @@ def project(c, r):
 
 def gen(ctx):
     rng = ctx.rng
+    # two runtimes alive in one process at the same time (own threads, own transports): each behaves as it does alone
+    for _ in range(600 if ctx.thorough else 40):
+        # (same algorithm configuration in both: the harness keeps algorithm names in process-global slots)
+        algs, allp = R.gen_cfg(rng, rich=False)
+        cfg = " ".join(x["text"] for x in algs)
+        sa = R.gen_script(rng, algs, allp, n=rng.randrange(8, 25), adversarial=0.3, faults=0.0, stop=0.0)
+        sb = R.gen_script(rng, algs, allp, n=rng.randrange(8, 25), adversarial=0.3, faults=0.0, stop=0.0)
+        yield Case("RUNPAIR", "%s SCRIPT %s || %s SCRIPT %s" % (cfg, " ".join(sa), cfg, " ".join(sb)), tags=("two-runtimes",))
     # the bundled transports themselves: a datagram larger than the receive buffer must not crash the receiver (F13)
     for kind in ("chan", "unix"):
         for mode in ("b", "nb"):
@@ -51,4 +59,6 @@ def nontrivial(c, r):
 def oracle(c, impl_res):
     if c.cmd == "XPT":
         return ("ORC", "C19 over @@ %s" % impl_res)
+    if c.cmd == "RUNPAIR":
+        return ("ORC", "C16 %s" % ("RES PANIC" if "PANIC" in impl_res else impl_res.split(" || ")[0]))
     return ("ORC", "C16 %s" % impl_res)
